@@ -6,6 +6,8 @@ def dispatch (op : String) (args : List Sexp) : String :=
   | "ping" => "pong"
   | "codec.enc" => opCodecEnc args
   | "codec.dec" => opCodecDec args
+  | "sock.recv" => opSockRecv args
+  | "sock.send" => opSockSend args
   | _ => "bad-op"
 
 partial def loop (hin hout : IO.FS.Stream) : IO Unit := do
